@@ -56,8 +56,9 @@ type c15Op struct {
 }
 
 type c15Script struct {
-	Store  string           `json:"store"` // inmem | codec
-	Probe  []string         `json:"probe"` // order of the first request kinds sent after the failover
+	Store  string           `json:"store"`           // inmem | codec
+	Probe  []string         `json:"probe"`           // order of the first request kinds sent after the failover
+	Fault  string           `json:"fault,omitempty"` // request kind whose store read fails once on B, before the probes
 	Topics map[string]int32 `json:"topics"`
 	Ops    []c15Op          `json:"ops"`
 }
@@ -187,6 +188,35 @@ func (s *c15CodecStore) DeleteConsumerGroup(ctx context.Context, id string) erro
 	defer s.mu.Unlock()
 	delete(s.groups, id)
 	return nil
+}
+
+// c15FaultStore fails the next n FetchConsumerGroup calls (a transient metadata store read
+// error, e.g. an etcd timeout) and passes everything else through.
+type c15FaultStore struct {
+	metadata.Store
+	mu    sync.Mutex
+	left  int
+	fired bool
+}
+
+func (s *c15FaultStore) arm(n int) { s.mu.Lock(); s.left, s.fired = n, false; s.mu.Unlock() }
+func (s *c15FaultStore) disarm() bool {
+	s.mu.Lock()
+	defer s.mu.Unlock()
+	s.left = 0
+	return s.fired
+}
+
+func (s *c15FaultStore) FetchConsumerGroup(ctx context.Context, id string) (*metadatapb.ConsumerGroup, error) {
+	s.mu.Lock()
+	if s.left > 0 {
+		s.left--
+		s.fired = true
+		s.mu.Unlock()
+		return nil, fmt.Errorf("injected: metadata store read timed out")
+	}
+	s.mu.Unlock()
+	return s.Store.FetchConsumerGroup(ctx, id)
 }
 
 // c15Wrap returns the store flavour: "inmem" = plain InMemoryStore, "codec" = groups kept as
@@ -460,7 +490,8 @@ func c15Run(sc c15Script) c15Outcome {
 		out.harnessErr = "copy store: " + err.Error()
 		return out
 	}
-	b := NewGroupCoordinator(sb, protocol.MetadataBroker{NodeID: 2, Host: "h2", Port: 9092}, cfg)
+	faulty := &c15FaultStore{Store: sb}
+	b := NewGroupCoordinator(faulty, protocol.MetadataBroker{NodeID: 2, Host: "h2", Port: 9092}, cfg)
 	defer b.Stop()
 
 	curGen := int32(0)
@@ -625,6 +656,49 @@ func c15Run(sc c15Script) c15Outcome {
 	if !describe("DescribeGroups/ListGroups") {
 		return out
 	}
+	if sc.Fault != "" {
+		// One-shot read fault: the store read behind the very first request that reaches B fails
+		// once. The request goes to B only; an error answer is fine. If B nevertheless processed
+		// it, A gets the same request. Either way A and B must agree afterwards - in particular
+		// B must not have replaced the persisted group.
+		m := ms[0] // first known member, or the unknown one when the group has no members
+		send := func(c *GroupCoordinator) int16 {
+			switch sc.Fault {
+			case "join-known":
+				return c15Join(ctx, c, m.id, m.subs, m.sess, 30000).ErrorCode
+			case "join-new":
+				return c15Join(ctx, c, "", []string{firstTopic}, 30000, 30000).ErrorCode
+			case "heartbeat":
+				return c15Heartbeat(ctx, c, m.id, curGen)
+			case "sync":
+				code, _ := c15Sync(ctx, c, m.id, curGen)
+				return code
+			default:
+				return c15Commit(ctx, c, m.id, curGen, firstTopic, 0, 77)
+			}
+		}
+		faulty.arm(1)
+		code := send(b)
+		fired := faulty.disarm()
+		if fired {
+			out.classes = append(out.classes, "read-fault-on-first-"+sc.Fault)
+		}
+		if code != -999 && code != protocol.UNKNOWN_SERVER_ERROR {
+			out.classes = append(out.classes, "stat:request-under-read-fault-processed")
+			if sc.Fault == "join-new" {
+				// cannot be mirrored (ids are random): the comparison below would be meaningless
+				// unless B really lost the group, which the describe below shows
+				if !describe("DescribeGroups/ListGroups after a new consumer's join hit a store read fault on B (B answered " + fmt.Sprint(code) + ")") {
+					return out
+				}
+			} else {
+				send(a)
+			}
+		}
+		if !describe("DescribeGroups/ListGroups after the first request on B hit a one-shot store read fault (B answered " + fmt.Sprint(code) + ")") {
+			return out
+		}
+	}
 	for _, kind := range sc.Probe {
 		if !phase(kind) {
 			return out
@@ -664,6 +738,7 @@ func c15Generate(t *rapid.T) c15Script {
 	if pos := rapid.IntRange(0, 7).Draw(t, "newjoin-position"); pos <= 3 {
 		sc.Probe = append(sc.Probe[:pos:pos], append([]string{"newjoin"}, sc.Probe[pos:]...)...)
 	}
+	sc.Fault = rapid.SampledFrom([]string{"", "join-known", "", "join-new", "heartbeat", "", "sync", "commit"}).Draw(t, "read-fault")
 	sc.Topics = map[string]int32{}
 	topicPool := []string{"t1", "t2", "t3"}
 	nt := rapid.IntRange(1, 3).Draw(t, "ntopics")
@@ -735,7 +810,7 @@ func TestVF_C15_Failover(t *testing.T) {
 			} else {
 				st.Class(fmt.Sprintf("nt-%s-%d-members", out.failState, out.failMembers))
 			}
-			st.NonTrivial(sc.Store, sc.Probe, sc.Topics, fmt.Sprintf("%+v", sc.Ops))
+			st.NonTrivial(sc.Store, sc.Probe, sc.Fault, sc.Topics, fmt.Sprintf("%+v", sc.Ops))
 			st.Sample(sc)
 		}
 		if out.violation != "" {
